@@ -18,3 +18,5 @@ pub mod c15_types;
 pub mod c03_amp;
 #[cfg(all(kani, feature = "c10"))]
 pub mod c10_slice;
+#[cfg(all(kani, feature = "c20"))]
+pub mod c20_window;
